@@ -1,0 +1,78 @@
+//go:build verif
+
+// Contracts for the verification machinery in /verif (comment-only; excluded from normal builds).
+// Property C04 (name section only). Mode int: Go ints are mathematical integers and every +,-,* carries a
+// no-overflow obligation; conversions to wasm.Index (uint32) are exact under the size preconditions.
+
+package watutil
+
+// fn_ok(F): entry k of a function-name map carries function index k (hence strictly increasing, no gaps).
+// map_sorted(m): a local-name map is strictly increasing in Index.   map_below(m, n): all its indices < n.
+// ln_ok(L, F): entry k of the indirect map carries function index k and a strictly increasing local-name
+// map (whose backing array is not the one F grows in).   sep / ln_sep: backing arrays are distinct.
+//@ spec fn_ok(F wasm.NameMap) bool := forall k int :: 0 <= k && k < len(F) ==> F[k] != nil && allocated(F[k]) && int(F[k].Index) == k
+//@ spec map_sorted(m wasm.NameMap) bool :=
+//@      allocated(m) && (forall a int :: 0 <= a && a < len(m) ==> m[a] != nil && allocated(m[a])) &&
+//@      (forall a int, b int :: 0 <= a && a < b && b < len(m) ==> m[a].Index < m[b].Index)
+//@ spec map_below(m wasm.NameMap, n int) bool := forall a int :: 0 <= a && a < len(m) ==> int(m[a].Index) < n
+//@ spec sep(a wasm.NameMap, b wasm.NameMap) bool := ref(a) == 0 || ref(a) != ref(b)
+//@ spec ln_ok(L wasm.IndirectNameMap, F wasm.NameMap) bool := forall k int :: 0 <= k && k < len(L) ==> L[k] != nil && allocated(L[k]) && int(L[k].Index) == k && map_sorted(L[k].NameMap) && sep(L[k].NameMap, F)
+// map_names(m, fn): every entry of a function's local-name map carries the name written in the text for
+// that local index: parameters first, then the declared locals.
+//@ spec map_names(m wasm.NameMap, fn *ast.Func) bool := forall a int :: 0 <= a && a < len(m) ==>
+//@      (int(m[a].Index) < len(fn.Type.Params) ==> m[a].Name == fn.Type.Params[int(m[a].Index)].Name) &&
+//@      (int(m[a].Index) >= len(fn.Type.Params) ==> int(m[a].Index) - len(fn.Type.Params) < len(fn.Locals) && m[a].Name == fn.Locals[int(m[a].Index) - len(fn.Type.Params)].Name)
+//@ spec ln_sep(L wasm.IndirectNameMap, cur wasm.NameMap) bool := forall k int :: 0 <= k && k < len(L) ==> sep(L[k].NameMap, cur)
+
+//@ func (*wat2wasmWorker).buildNameSection
+//@   mode int
+//@   requires p != nil && p.mWat != nil && p.mWasm != nil && p.mWasm.NameSection != nil
+//@   requires len(p.mWat.Imports) + len(p.mWat.Funcs) < (1 << 31)
+//@   requires forall i int :: 0 <= i && i < len(p.mWat.Imports) ==> p.mWat.Imports[i] != nil && (p.mWat.Imports[i].ObjKind == token.FUNC ==> p.mWat.Imports[i].FuncType != nil && len(p.mWat.Imports[i].FuncType.Params) < (1 << 31))
+//@   requires forall i int :: 0 <= i && i < len(p.mWat.Funcs) ==> p.mWat.Funcs[i] != nil && p.mWat.Funcs[i].Type != nil && len(p.mWat.Funcs[i].Type.Params) < (1 << 30) && len(p.mWat.Funcs[i].Locals) < (1 << 30)
+//   imports
+//@   loop 0 invariant -1 <= rangeindex && rangeindex < len(p.mWat.Imports)
+//@   loop 0 invariant 0 <= importFuncCount && importFuncCount <= rangeindex+1 && len(funcNames) == importFuncCount && len(localNames) == importFuncCount
+//@   loop 0 invariant allocated(funcNames) && allocated(localNames)
+//@   loop 0 invariant fn_ok(funcNames)
+//@   loop 0 invariant ln_ok(localNames, funcNames)
+//   parameters of one imported function
+//@   loop 1 invariant -1 <= rangeindex && rangeindex < len(x.FuncType.Params) && 0 <= rangeindex_L0+1 && rangeindex_L0+1 < len(p.mWat.Imports) && x == p.mWat.Imports[rangeindex_L0+1] && x.ObjKind == token.FUNC
+//@   loop 1 invariant 0 <= importFuncCount && importFuncCount <= rangeindex_L0+1 && len(funcNames) == importFuncCount && len(localNames) == importFuncCount
+//@   loop 1 invariant allocated(funcNames) && allocated(localNames)
+//@   loop 1 invariant fn_ok(funcNames)
+//@   loop 1 invariant ln_ok(localNames, funcNames)
+//@   loop 1 invariant map_sorted(localNameMap) && map_below(localNameMap, rangeindex+1) && sep(localNameMap, funcNames) && ln_sep(localNames, localNameMap)
+//   functions
+//@   loop 2 invariant -1 <= rangeindex && rangeindex < len(p.mWat.Funcs)
+//@   loop 2 invariant 0 <= importFuncCount && importFuncCount <= len(p.mWat.Imports) && len(funcNames) == importFuncCount + rangeindex+1 && len(localNames) == len(funcNames)
+//@   loop 2 invariant allocated(funcNames) && allocated(localNames)
+//@   loop 2 invariant fn_ok(funcNames)
+//@   loop 2 invariant ln_ok(localNames, funcNames)
+//@   loop 2 invariant forall i int :: 0 <= i && i <= rangeindex ==> funcNames[importFuncCount+i].Name == p.mWat.Funcs[i].Name && map_names(localNames[importFuncCount+i].NameMap, p.mWat.Funcs[i])
+//   parameters of one function
+//@   loop 3 invariant -1 <= rangeindex && rangeindex < len(fn.Type.Params) && 0 <= rangeindex_L2+1 && rangeindex_L2+1 < len(p.mWat.Funcs) && fn == p.mWat.Funcs[rangeindex_L2+1]
+//@   loop 3 invariant 0 <= importFuncCount && importFuncCount <= len(p.mWat.Imports) && len(funcNames) == importFuncCount + rangeindex_L2+1 && len(localNames) == len(funcNames)
+//@   loop 3 invariant allocated(funcNames) && allocated(localNames)
+//@   loop 3 invariant fn_ok(funcNames)
+//@   loop 3 invariant ln_ok(localNames, funcNames)
+//@   loop 3 invariant forall i int :: 0 <= i && i <= rangeindex_L2 ==> funcNames[importFuncCount+i].Name == p.mWat.Funcs[i].Name && map_names(localNames[importFuncCount+i].NameMap, p.mWat.Funcs[i])
+//@   loop 3 invariant map_names(localNameMap, fn)
+//@   loop 3 invariant map_sorted(localNameMap) && map_below(localNameMap, rangeindex+1) && sep(localNameMap, funcNames) && ln_sep(localNames, localNameMap)
+//   locals of one function
+//@   loop 4 invariant -1 <= rangeindex && rangeindex < len(fn.Locals) && 0 <= rangeindex_L2+1 && rangeindex_L2+1 < len(p.mWat.Funcs) && fn == p.mWat.Funcs[rangeindex_L2+1]
+//@   loop 4 invariant 0 <= importFuncCount && importFuncCount <= len(p.mWat.Imports) && len(funcNames) == importFuncCount + rangeindex_L2+1 && len(localNames) == len(funcNames)
+//@   loop 4 invariant allocated(funcNames) && allocated(localNames)
+//@   loop 4 invariant fn_ok(funcNames)
+//@   loop 4 invariant ln_ok(localNames, funcNames)
+//@   loop 4 invariant forall i int :: 0 <= i && i <= rangeindex_L2 ==> funcNames[importFuncCount+i].Name == p.mWat.Funcs[i].Name && map_names(localNames[importFuncCount+i].NameMap, p.mWat.Funcs[i])
+//@   loop 4 invariant map_names(localNameMap, fn)
+//@   loop 4 invariant map_sorted(localNameMap) && map_below(localNameMap, len(fn.Type.Params) + rangeindex+1) && sep(localNameMap, funcNames) && ln_sep(localNames, localNameMap)
+//@   ensures[fn-index] fn_ok(p.mWasm.NameSection.FunctionNames)
+//@   ensures[ln-len]   len(p.mWasm.NameSection.LocalNames) == len(p.mWasm.NameSection.FunctionNames)
+//@   ensures[ln-index] ln_ok(p.mWasm.NameSection.LocalNames, p.mWasm.NameSection.FunctionNames)
+//@   ensures[fn-name]  forall i int :: 0 <= i && i < len(p.mWat.Funcs) ==> p.mWasm.NameSection.FunctionNames[len(p.mWasm.NameSection.FunctionNames)-len(p.mWat.Funcs)+i].Name == p.mWat.Funcs[i].Name
+//@   ensures[ln-name]  forall i int :: 0 <= i && i < len(p.mWat.Funcs) ==> map_names(p.mWasm.NameSection.LocalNames[len(p.mWasm.NameSection.LocalNames)-len(p.mWat.Funcs)+i].NameMap, p.mWat.Funcs[i])
+//@   modifies p.mWasm.NameSection.FunctionNames, p.mWasm.NameSection.LocalNames
+//@   noframe
+//@   property C04
